@@ -320,6 +320,143 @@ Qed.
 
 End S.
 
+(* ---------------------------------------------------------------- the join-precise analysis gfw is sound *)
+Section W.
+Variables gstate value req : Type.
+Variable draw : req -> gstate -> value * gstate.
+Variable seed : Z -> gstate.
+Notation interp := (interp value req).
+Notation lworld := (lworld gstate value).
+Notation runL := (run_local gstate value req draw seed).
+Notation callL := (call_local gstate value req draw seed).
+Notation callG := (call gstate value req draw seed).
+
+Lemma wle_refl : forall a, wle a a = true. Proof. intros []; reflexivity. Qed.
+Lemma wle_trans : forall a b c, wle a b = true -> wle b c = true -> wle a c = true.
+Proof. intros [] [] []; simpl; congruence. Qed.
+Lemma wle_unsafe : forall a, wle a WUnsafe = true. Proof. intros []; reflexivity. Qed.
+Lemma wle_join_l : forall a b, wle a (wjoin a b) = true. Proof. intros [] []; reflexivity. Qed.
+Lemma wle_join_r : forall a b, wle b (wjoin a b) = true. Proof. intros [] []; reflexivity. Qed.
+Lemma wabsp_eval_arg : forall a p c, wabsp (eval_arg a p c) = warg a (wabsp p) (wabsc c).
+Proof. intros [] p c; simpl; auto. destruct c as [[]|]; reflexivity. Qed.
+Lemma warg_mono : forall a p p' c c', wle p p' = true -> wle c c' = true -> wle (warg a p c) (warg a p' c') = true.
+Proof. intros [] p p' c c' Hp Hc; simpl; auto. Qed.
+
+Definition wsound (I : interp) (sk : skel) : Prop :=
+  forall P C C', gfw sk P C = Some C' ->
+  forall p c w, wle (wabsp p) P = true -> wle (wabsc c) C = true ->
+    exists c1 w1, runL I sk p c w = Some (c1, w1) /\ wle (wabsc c1) C' = true.
+
+Lemma loop_wsound : forall (I : interp) body p t Cinv,
+  (forall c w, wle (wabsc c) Cinv = true -> exists c1 w1, runL I body p c w = Some (c1, w1) /\ wle (wabsc c1) Cinv = true) ->
+  forall n i c w, wle (wabsc c) Cinv = true ->
+    exists c1 w1, loopL gstate value (runL I body p) (stop I t) n i c w = Some (c1, w1) /\ wle (wabsc c1) Cinv = true.
+Proof.
+  intros I body p t Cinv Hb. induction n; intros i c w Hc; simpl.
+  - eauto.
+  - destruct (stop I t i (hist w)); [eauto|].
+    destruct (Hb c w Hc) as (c1 & w1 & R & H1). rewrite R. apply IHn. exact H1.
+Qed.
+
+Lemma gfw_sound : forall (I : interp) sk, wsound I sk.
+Proof.
+  intros I. induction sk; intros P C C' H p c w Hp Hc; simpl in H.
+  - inversion H; subst. simpl. eauto.
+  - destruct (gfw sk1 P C) as [C1|] eqn:E1; [|discriminate].
+    destruct (IHsk1 _ _ _ E1 p c w Hp Hc) as (c1 & w1 & R1 & H1).
+    destruct (IHsk2 _ _ _ H p c1 w1 Hp H1) as (c2 & w2 & R2 & H2).
+    exists c2, w2. simpl. rewrite R1. auto.
+  - destruct (gfw sk1 P C) as [C1|] eqn:E1; [|discriminate].
+    destruct (gfw sk2 P C) as [C2|] eqn:E2; [|discriminate]. inversion H; subst. simpl.
+    destruct (decide I t (hist w)).
+    + destruct (IHsk1 _ _ _ E1 p c w Hp Hc) as (c1 & w1 & R1 & H1). exists c1, w1. split; auto.
+      eapply wle_trans; [exact H1 | apply wle_join_l].
+    + destruct (IHsk2 _ _ _ E2 p c w Hp Hc) as (c1 & w1 & R1 & H1). exists c1, w1. split; auto.
+      eapply wle_trans; [exact H1 | apply wle_join_r].
+  - destruct (gfw sk P C) as [C1|] eqn:E1; [|discriminate]. simpl.
+    destruct (wle C1 C) eqn:L.
+    + inversion H; subst. apply (loop_wsound I sk p t C'); auto.
+      intros c0 w0 Hc0. destruct (IHsk _ _ _ E1 p c0 w0 Hp Hc0) as (c1 & w1 & R1 & H1).
+      exists c1, w1. split; auto. eapply wle_trans; eauto.
+    + destruct (gfw sk P WUnsafe) as [C2|] eqn:E2; [|discriminate]. inversion H; subst.
+      apply (loop_wsound I sk p t WUnsafe); [|apply wle_unsafe].
+      intros c0 w0 Hc0. destruct (IHsk _ _ _ E2 p c0 w0 Hp Hc0) as (c1 & w1 & R1 & H1).
+      exists c1, w1. split; auto. apply wle_unsafe.
+  - inversion H; subst. simpl.
+    exists (fst (check_random_state gstate value seed p (tickL gstate value w))), (snd (check_random_state gstate value seed p (tickL gstate value w))).
+    split; [now rewrite <- surjective_pairing|].
+    destruct p as [|s|[|h]|]; simpl in *; auto.
+  - destruct C; [|discriminate]. inversion H; subst. simpl.
+    destruct c as [[|h]|]; simpl in Hc; try discriminate; eauto.
+  - discriminate.
+  - destruct (gfw sk (warg a P C) WSafe) as [C1|] eqn:E1; [|discriminate]. inversion H; subst. simpl.
+    assert (Hp' : wle (wabsp (eval_arg a p c)) (warg a P C') = true).
+    { rewrite wabsp_eval_arg. now apply warg_mono. }
+    destruct (IHsk _ _ _ E1 (eval_arg a p c) None w Hp' eq_refl) as (c1 & w1 & R1 & H1).
+    rewrite R1. eauto.
+Qed.
+
+(* one call: random_state an int, a generator object that is not the global one, or junk *)
+Definition safe_arg (a : rsarg gstate) : bool := match a with HNone | HGlobObj => false | _ => true end.
+
+Theorem gfw_call : forall (I : interp) sk (a : rsarg gstate),
+  global_free_w sk = true -> safe_arg a = true ->
+  exists o k, callL I sk a = Some o /\ ~ In GGlobal (o_srcs o) /\
+              forall env g, callG env I sk a g = (o, advance gstate env 0 k g).
+Proof.
+  intros I sk a H Ha. unfold global_free_w in H.
+  destruct (gfw sk WSafe WSafe) as [C'|] eqn:E; [|discriminate].
+  assert (Hp : wle (wabsp (param0 gstate a)) WSafe = true) by (destruct a; simpl in *; try discriminate; reflexivity).
+  destruct (gfw_sound I sk _ _ _ E (param0 gstate a) None (w0 gstate value a) Hp eq_refl) as (c1 & w1 & R & _).
+  assert (L : callL I sk a = Some (outcome_of gstate value a w1)) by (unfold call_local; now rewrite R).
+  destruct (call_local_agrees gstate value req draw seed I sk a _ L) as (N & k & G).
+  exists (outcome_of gstate value a w1), k. auto.
+Qed.
+
+Theorem gfw_reproducible : forall (I : interp) sk (a : rsarg gstate),
+  global_free_w sk = true -> safe_arg a = true ->
+  (forall env env' g g', fst (callG env I sk a g) = fst (callG env' I sk a g')) /\
+  (forall g, snd (callG (fun _ x => x) I sk a g) = g) /\
+  (forall env g, ~ In GGlobal (o_srcs (fst (callG env I sk a g)))).
+Proof.
+  intros I sk a H Ha. destruct (gfw_call I sk a H Ha) as (o & k & _ & N & G). repeat split.
+  - intros. now rewrite !G.
+  - intro g. rewrite G. simpl. apply advance_id.
+  - intros env g. now rewrite G.
+Qed.
+
+End W.
+
+(* the join-precise analysis accepts everything the first analysis accepts *)
+Definition wc (c : acur) : wcur := match c with AGlob => WUnsafe | _ => WSafe end.
+Definition wp (p : aparam) : wcur := match p with PNone | PGlob => WUnsafe | _ => WSafe end.
+
+Lemma gf_gfw : forall sk p c c', gf sk p c = Some c' -> gfw sk (wp p) (wc c) = Some (wc c').
+Proof.
+  induction sk; intros p c c' H; simpl in H |- *.
+  - now inversion H.
+  - destruct (gf sk1 p c) as [c1|] eqn:E1; [|discriminate]. rewrite (IHsk1 _ _ _ E1). now apply IHsk2.
+  - destruct (gf sk1 p c) as [c1|] eqn:E1; [|discriminate]. destruct (gf sk2 p c) as [c2|] eqn:E2; [|discriminate].
+    destruct (acur_eqb c1 c2) eqn:E; [|discriminate]. apply acur_eqb_eq in E. inversion H; subst.
+    rewrite (IHsk1 _ _ _ E1), (IHsk2 _ _ _ E2). destruct c'; reflexivity.
+  - destruct (gf sk p c) as [c1|] eqn:E1; [|discriminate].
+    destruct (acur_eqb c1 c) eqn:E; [|discriminate]. apply acur_eqb_eq in E. inversion H; subst.
+    rewrite (IHsk _ _ _ E1). destruct c'; reflexivity.
+  - destruct p; simpl in H; inversion H; reflexivity.
+  - destruct c; try discriminate. inversion H; subst. reflexivity.
+  - discriminate.
+  - destruct (gf sk (aarg a p c) AUnset) as [c1|] eqn:E1; [|discriminate]. inversion H; subst.
+    assert (X : wp (aarg a p c') = warg a (wp p) (wc c')) by (destruct a; simpl; auto; destruct c'; reflexivity).
+    rewrite <- X. change WSafe with (wc AUnset). now rewrite (IHsk _ _ _ E1).
+Qed.
+
+Corollary global_free_gfw : forall sk, global_free sk PInt = true -> global_free_w sk = true.
+Proof.
+  intros sk H. unfold global_free in H. unfold global_free_w.
+  destruct (gf sk PInt AUnset) as [c|] eqn:E; [|discriminate].
+  change WSafe with (wp PInt) at 1. change WSafe with (wc AUnset). now rewrite (gf_gfw _ _ _ _ E).
+Qed.
+
 (* ---------------------------------------------------------------- histories, semantic form *)
 Section H.
 Variables gstate value req : Type.
